@@ -91,8 +91,15 @@ void rd_thunk(const T *par, const int64_t *i0, const int64_t *i1, int num, const
 // ---- WRITE thunk: one (operator, rhs kind) through the view; the parent lives in the guard slot --
 // rk 0: scalar of type T   1: tensor   2: expression R + R2   3: another index view B(it) of a second parent
 // rk 4: scalar of type int (exercises the integral-scalar overloads on floating parents)
-constexpr int NRK = 5;
-static const char *rk_name[] = {"scalar", "tensor", "expression R+R2", "view B(it)", "int scalar"};
+// an expression node that REQUIRES evaluation (lazy linear-algebra operator) and has exactly the value of R:
+// rank 2: trans(trans(R)); rank 1: I % R with the identity; higher ranks: none exists -> plain R
+template <class T, size_t M0, size_t N0> FASTOR_INLINE auto lazy_same(const Fastor::Tensor<T, M0, N0> &R) { return trans(trans(R)); }
+template <class T, size_t N0> FASTOR_INLINE Fastor::Tensor<T, N0, N0> ident_of(const Fastor::Tensor<T, N0> &) { Fastor::Tensor<T, N0, N0> I; I.zeros(); for (size_t i = 0; i < N0; ++i) I(i, i) = T(1); return I; }
+template <class X, class OPV, class T, size_t N0> FASTOR_INLINE void apply_lazy(X &&v, OPV op, const Fastor::Tensor<T, N0> &R) { auto I = ident_of(R); apply(v, op, I % R); }
+template <class X, class OPV, class T, size_t M0, size_t N0> FASTOR_INLINE void apply_lazy(X &&v, OPV op, const Fastor::Tensor<T, M0, N0> &R) { apply(v, op, trans(trans(R))); }
+template <class X, class OPV, class T, size_t A0, size_t B0, size_t C0, size_t... Rest> FASTOR_INLINE void apply_lazy(X &&v, OPV op, const Fastor::Tensor<T, A0, B0, C0, Rest...> &R) { apply(v, op, R); }
+constexpr int NRK = 6;
+static const char *rk_name[] = {"scalar", "tensor", "expression R+R2", "view B(it)", "int scalar", "expression that needs evaluation (trans(trans(R)) / I % R)"};
 template <C19_TPARAMS>
 void wr_thunk(void *slot, const T *par, const T *bpar, const int64_t *i0, const int64_t *i1, int num, int op, int rk,
               T c, const T *r, const T *r2, T *outpar) {
@@ -109,6 +116,7 @@ void wr_thunk(void *slot, const T *par, const T *bpar, const int64_t *i0, const 
     case 1: apply(view<FORM, F, L, S>(A, it0, it1, num), op, Rt); break;
     case 2: apply(view<FORM, F, L, S>(A, it0, it1, num), op, Rt + Rt2); break;
     case 3: { P Bp; put(Bp, bpar, P::size()); apply(view<FORM, F, L, S>(A, it0, it1, num), op, view<FORM, F, L, S>(Bp, it0, it1, num)); } break;
+    // (index-tensor views have no overload for right-hand sides that need evaluation: rejected in every configuration, not generated)
     default: apply(view<FORM, F, L, S>(A, it0, it1, num), op, (int)c); break;
   }
   std::copy(A.data(), A.data() + P::size(), outpar);
@@ -127,6 +135,7 @@ void mk_thunk(void *slot, const T *par, const unsigned char *mask, int op, int r
     case 1: apply(A(m), op, Rt); break;
     case 2: apply(A(m), op, Rt + Rt2); break;
     case 3: apply(A(m), op, c + A); break;
+    case 5: apply_lazy(A(m), op, Rt); break;
     default: apply(A(m), op, (int)c); break;
   }
   std::copy(A.data(), A.data() + P::size(), outpar);
@@ -259,11 +268,11 @@ void write_driver(vf::Draw &d, vf::Ctx &ctx, const Desc &D, bool enumerated, wr_
   std::vector<T> r, r2, out(n), ref(n); T c;
   for (int op = 0; op < 5; ++op) {
     rhs_data(d, enumerated, op, R, r, r2, c, op);
-    for (int rk = 0; rk < NRK; ++rk) {
+    for (int rk = 0; rk < NRK - 1; ++rk) {
       if (rk == 3 && op == 4) { for (int i = 0; i < n; ++i) bpar[i] = (T)(1 << (i % 4)); }   // divisor view: powers of two
       ref = par;
       for (int k = 0; k < R; ++k) {
-        T rv = rk == 0 || rk == 4 ? c : rk == 1 ? r[k] : rk == 2 ? (T)(r[k] + r2[k]) : bpar[pos[k]];
+        T rv = rk == 0 || rk == 4 ? c : (rk == 1 || rk == 5) ? r[k] : rk == 2 ? (T)(r[k] + r2[k]) : bpar[pos[k]];
         ref[pos[k]] = op_apply(par[pos[k]], op, rv);
       }
       gb.paint_window(slot, D.parent_bytes, 1024);
@@ -313,13 +322,13 @@ void mask_driver(vf::Draw &d, vf::Ctx &ctx, const MDesc &D, bool enumerated, mk_
       if (rk == 3 && op == 4) continue;     // x / (c + x) is not exact; not generated
       ref = par;
       for (int i = 0; i < n; ++i) if (mask[i]) {
-        T rv = rk == 0 || rk == 4 ? c : rk == 1 ? r[i] : rk == 2 ? (T)(r[i] + r2[i]) : (T)(c + par[i]);
+        T rv = rk == 0 || rk == 4 ? c : (rk == 1 || rk == 5) ? r[i] : rk == 2 ? (T)(r[i] + r2[i]) : (T)(c + par[i]);
         ref[i] = op_apply(par[i], op, rv);
       }
       gb.paint_window(slot, D.parent_bytes, 1024);
       std::fill(out.begin(), out.end(), (T)-12345);
       thunk(slot, par.data(), mask.data(), op, rk, c, r.data(), r2.data(), out.data());
-      static const char *mrk[] = {"scalar", "tensor", "expression R+R2", "expression c+A", "int scalar"};
+      static const char *mrk[] = {"scalar", "tensor", "expression R+R2", "expression c+A", "int scalar", "expression that needs evaluation (trans(trans(R)) / I % R)"};
       for (int i = 0; i < n; ++i)
         if (!(out[i] == ref[i])) {
           ctx.fail("mask %s %s: parent %s flat position %d (mask %s) got %s expected %s, was %s (mask=%s)", op_name[op], mrk[rk], D.shape, i, mask[i] ? "true" : "false",
